@@ -151,7 +151,11 @@ def check(tier, seed, replay=None):
             fails = True
         rec = RL.base_record("proc", p["policy"], "plain", False, None, b"")
         rec["exact"] = False
-        rec.update({"case": len(recs), "regions": p["regions"], "want": "err" if fails else "ok", "code": code if code >= 0 else 255,
+        # with --take the run may end before a malformed region is read: the in-process run shows how many were reported
+        regions_eff = p["regions"]
+        if any(a.startswith("--take") for a in p["argv"]):
+            regions_eff = min(p["regions"], bytes.fromhex(t["err"]).count(b"error:") if p["policy"] == "stderr" else p["regions"])
+        rec.update({"case": len(recs), "regions": regions_eff, "want": "err" if fails else "ok", "code": code if code >= 0 else 255,
                     "fd1": list(out), "fd2": list(err), "base": list(bytes.fromhex(t["out"])), "checkrows": p["mode"] == "normal" and not fails})
         if p["mode"] == "stdin-dir":
             rec["policy"] = "ignore"
